@@ -243,4 +243,7 @@ def run(ck):
     import importlib as _il
     _m = lambda n: _il.import_module('props.' + n)
     _c7.import_e3(ck, "3", lambda inst: True)  # enable() after disable() re-arms a wrapped timer
-
+    # ---- shared clause demonstrated by seeding round 9 ---------------------------------------------------------------
+    from props import common as _c9
+    import importlib as _il9
+    _c9.import_results(ck, _il9.import_module("props.C14"), "4", "dispatch_events", "2")  # a stale synthetic event forces a zero wait: the queue is discarded before anything reads it
